@@ -295,6 +295,21 @@ def apply_op(R, g, m, op):
             a, b = m.cons[i]
             if i in fl and [b, a] not in m.cons: a, b = b, a
             cn.append((m.name_of(a), m.name_of(b))); newcons.append([a, b])
+        if op.get('unknown') is not None and nc:
+            # a pair that exists in neither orientation, somewhere in the list: documented refusal ("Unknown connection name").
+            # What the call had done by then stays done (blocks in the new order, pairs listed the other way round before the
+            # unknown one turned), and the grid must be consistent in that state
+            pos = op['unknown'] % (len(cn) + 1)
+            R.label('reorder:refused-at-%s' % ('start' if pos == 0 else 'end' if pos == len(cn) else 'middle'))
+            try:
+                g.reorder(bn, cn[:pos] + [('?????', '!!!!!')] + cn[pos:])
+            except Exception as e:
+                if 'Unknown connection name' not in str(e): raise
+            else:
+                R.fail('reorder:not-refused', 'reorder() accepted a connection name that does not exist'); raise Aborted()
+            m.blocks = [m.blocks[i] for i in order]
+            for i, pair in zip(corder[:pos], newcons[:pos]): m.cons[i] = pair
+            return g, 'reorder'
         g.reorder(bn, cn if nc else None)
         m.blocks = [m.blocks[i] for i in order]
         if nc: m.cons = newcons
@@ -447,6 +462,8 @@ def alphabet(full):
         for cp in (['identity', 'reverse', 'rotate'] if full else ['identity', 'reverse']):
             for fl in ['none', 'first', 'all']:
                 A.append({'op': 'reorder', 'perm': list(p), 'cperm': cp, 'flip': fl})
+    for u in (0, 1, 2):
+        for fl in ('first', 'all'): A.append({'op': 'reorder', 'perm': 'reverse', 'cperm': 'identity', 'flip': fl, 'unknown': u})
     for i in range(4): A.append({'op': 'demote_block', 'blocks': [i]})
     A.append({'op': 'demote_block', 'blocks': [0, 2]}); A.append({'op': 'demote_block', 'blocks': [1, 0, 1]})
     A.append({'op': 'clean_rocktypes'})
@@ -486,6 +503,8 @@ def op_strategy():
                   st.one_of(st.sampled_from(['reverse', 'rotate', 'identity']), st.lists(st.integers(0, 40), unique=True, max_size=8)),
                   st.one_of(st.sampled_from(['reverse', 'rotate', 'identity']), st.lists(st.integers(0, 60), unique=True, max_size=8)),
                   st.one_of(st.sampled_from(['none', 'first', 'all']), st.lists(st.integers(0, 300), min_size=1, max_size=5))),
+        st.builds(lambda p, f, u: {'op': 'reorder', 'perm': p, 'cperm': 'identity', 'flip': f, 'unknown': u},
+                  st.sampled_from(['reverse', 'rotate', 'identity']), st.sampled_from(['first', 'all']), st.integers(0, 50)),
         st.builds(lambda s: {'op': 'demote_block', 'blocks': s}, small),
         st.just({'op': 'clean_rocktypes'}),
         st.builds(lambda s, v, n: {'op': 'minc', 'blocks': s, 'vf': v, 'nfp': n}, small,
